@@ -152,6 +152,14 @@ def oracle(prog, obs):
             if tab.get(s, 0) != cen[k].get(s, 0):
                 out.append(("reporter: %d %ss counted as %s, the model has %d" % (tab.get(s, 0), k, s, cen[k].get(s, 0)), "count:%s" % k))
                 break
+    # what the run itself printed: one line per kind that has elements (the rules line whenever there is a rule, even a single one)
+    printed = obs.get("printed") or ""
+    for k in kinds:
+        n = sum(cen[k].values())
+        has_line = re.search(r"^\s*\d+ %ss? " % k, printed, re.M) is not None
+        if n > 0 and not has_line:
+            out.append(("the printed summary has no %s line although the model has %d %s(s): %r" % (k, n, k, printed[-300:]),
+                        "printed-line-missing:%s" % k))
     want_fail = [n for n, s in obs["order"] if s == "failed"]
     want_err = [n for n, s in obs["order"] if s in ERR]
     if obs["failing"] != want_fail:
